@@ -233,7 +233,7 @@ func fmtInt(i int) string {
 
 // decodedFieldExceptions: serialiser-read fields that no decoder fills, by design.
 var decodedFieldExceptions = map[string]string{
-	"pkg/packet/mrt.BGP4MPMessage.BGPMessagePayload": "writer-side alternative: the raw bytes of a received message, used instead of re-serialising BGPMessage; the reader fills the parsed BGPMessage",
+	"pkg/packet/mrt.BGP4MPMessage.BGPMessagePayload":     "writer-side alternative: the raw bytes of a received message, used instead of re-serialising BGPMessage; the reader fills the parsed BGPMessage",
 	"pkg/packet/bmp.BMPRouteMonitoring.BGPUpdatePayload": "writer-side alternative: the raw bytes of the mirrored UPDATE; the reader fills the parsed BGPUpdate",
 }
 
